@@ -18,6 +18,24 @@ def run_traced(desc, snapshots=True, scheduler=None, step_margin=3, **kw):
     return sim, evs, probe
 
 
+def install_edits(sim, edits):
+    """Apply descriptor edits to the live network at the end of the given periods (public update_constraint)."""
+    from acnportal.acnsim.network import Current
+    from .monitors import Wrap
+    if not edits:
+        return None
+    pending = sorted(edits, key=lambda e: e["after"])
+    net = sim.network
+
+    def after(ctx, result, exc):
+        while pending and pending[0]["after"] <= sim.iteration:
+            e = pending.pop(0)
+            if e["name"] in net.constraint_index:
+                net.update_constraint(e["name"], Current(dict(e["coeffs"])), e["limit"])
+
+    return Wrap(net, "post_charging_update", after=after).install()
+
+
 def occupant_model(desc):
     """{station: [(arrival, departure, session_id), ...]} from the descriptor alone."""
     out = {s["id"]: [] for s in desc["network"]["stations"]}
